@@ -64,6 +64,14 @@ def test_closed_forms():
     G2 = RG(M, "S", ["a"], [(p_, "S", ("S", "S")), (q_, "S", ("a",))])
     tail = cfgref.total(G2)["S"] - q_ - p_ * q_**2 - 2 * p_**2 * q_**3
     _expect(abs(cfgref.prefix(G2, ("a",) * 4) - tail) < 1e-15, "prefix with tiny weights")
+    # very small prefix weights must be converged *relatively* (values around 1e-20)
+    g3 = dict(S="S", V=["b"], rules=[["1/8", "A", ["S"]], ["3/40", "B", ["A"]], ["1/20", "S", ["b"]], ["1/8", "S", ["B", "B"]]])
+    G3 = RG.from_case(M, g3)
+    ins3 = Inside(G3)
+    for k in range(0, 6):
+        bf = sum(ins3(("b",) * n) for n in range(k, 40))
+        pk = cfgref.prefix(G3, ("b",) * k)
+        _expect(abs(pk - bf) <= 1e-12 * bf, f"tiny prefix weight k={k}: {pk} vs {bf}")
     # exact: finite language, QQ
     Q = model("QQ")
     g = dict(S="S", V=["a", "b"], rules=[["1/2", "S", ["A", "A"]], ["1/3", "A", ["a"]], ["1/4", "A", ["b"]], ["1/5", "A", []]])
